@@ -5,6 +5,7 @@ and generating responses, including Titan upload handlers.
 """
 
 import os
+import secrets
 from abc import ABC, abstractmethod
 from pathlib import Path
 from typing import TYPE_CHECKING
@@ -393,11 +394,16 @@ class FileUploadHandler(UploadHandler):
         # 6. Save file
         # Write to a temporary file first and move it into place, so that a failure
         # part-way (disk full, I/O error) never leaves a truncated or partial file
-        temp = target.with_name(f".{target.name}.{os.getpid()}.upload")
+        # The temporary name is unpredictable and the file is created exclusively:
+        # whatever already exists in the directory - a file, or a link leading
+        # elsewhere - is neither written through nor replaced nor removed
+        temp = target.with_name(f".{target.name}.{secrets.token_hex(8)}.upload")
         try:
             target.parent.mkdir(parents=True, exist_ok=True)
+            fd = os.open(temp, os.O_WRONLY | os.O_CREAT | os.O_EXCL, 0o666)
             try:
-                temp.write_bytes(request.content)
+                with os.fdopen(fd, "wb") as f:
+                    f.write(request.content)
                 os.replace(temp, target)
             except BaseException:
                 temp.unlink(missing_ok=True)
